@@ -348,7 +348,12 @@ def run(ctx, chk):
                   "FLAGS table %s differs from the declared constants %s" % (m["flags"], sorted(m["consts"])), w,
                   sample={"flags": m["consts"]})
     chk.floor(RM, "mask types", len(masks), 15)
-    lock = open(ctx.meta["repo"] + "/Cargo.lock").read()
+    import os as _os
+    lock = ""
+    for cand in (_os.path.join(ctx.dir, "Cargo.lock"), _os.path.join(ctx.meta["repo"], "Cargo.lock")):
+        if _os.path.exists(cand):
+            lock = open(cand).read()
+            break
     import re
     vers = re.findall(r'name = "bitflags"\nversion = "(\d+)\.', lock)
     dep2 = [v for v in vers if v == "2"]
